@@ -143,12 +143,18 @@ def encoder_sections(ctx, pid):
                 rule="needs_quotes, encode_string, is_symbol (PVL/ODL/PDS3/ISIS receivers) == the quoting rule of the statement; "
                      "encode_simple_value dispatches by type in the order None, set, list, date/time, bool, number, str; encode_datetype "
                      "tests datetime before date; ODLEncoder.encode_assignment writes a statement only for a name of at most 30 "
-                     "characters that is an (pointer / namespace) identifier")
+                     "characters that is an (pointer / namespace) identifier; encode_aggregation_block writes '<begin keyword> = <name>', the body "
+                     "one level deeper and the end statement of the same family (with the name when aggregation_end); PVLEncoder.encode "
+                     "returns only texts whose characters are all allowed by the grammar")
     t0 = time.time()
     contracts = ce.quoting_contracts()
     verify_contracts(s, contracts, EncTheory, ["pvl.encoder"], jobs=ctx.jobs)
     # date/time dispatch (a datetime is also a date) and ODL parameter-name refusal; own registry: other callee signatures
     verify_contracts(s, ce.dispatch_contracts(), EncTheory, ["pvl.encoder"], jobs=ctx.jobs)
+    # the final character-set sweep of PVLEncoder.encode
+    verify_contracts(s, ce.sweep_contracts(), EncTheory, ["pvl.encoder"], jobs=2)
+    # begin / end statements of a block
+    verify_contracts(s, ce.block_contracts(), EncTheory, ["pvl.encoder"], jobs=3)
     s.assumptions += ENC_ASSUMPTIONS
     s.seconds = time.time() - t0
     r = Section("encoder-quoting-runtime-contracts", "bounded", bounded=True,
@@ -186,6 +192,21 @@ def encoder_sections(ctx, pid):
                                 obligation=failed.get(c.target, ""), concrete=True)
     r.seconds = time.time() - t1
     return [s, r]
+
+
+def sweep_section(ctx):
+    """C15 / C12: PVLEncoder.encode returns a text only if every character of it is allowed by the encoder's grammar"""
+    from ..pyvc.enctheory import EncTheory
+    from ..contracts import encoder as ce
+    s = Section("encoder-character-sweep", "smt",
+                rule="PVLEncoder.encode (PVL / ISIS receivers): the returned text is the text that was swept, and the sweep lets a text "
+                     "through only if grammar.char_allowed holds for every character (search-loop rule over the characters)")
+    t0 = time.time()
+    verify_contracts(s, ce.sweep_contracts(), EncTheory, ["pvl.encoder"], jobs=2)
+    s.assumptions += [ENC_ASSUMPTIONS[0], "encode_module: signature only; ODLEncoder.encode / PDSLabelEncoder.encode append the configured "
+                      "newline / replace tabs after the sweep (their line end is a constructor argument: bounded conformance reader)"]
+    s.seconds = time.time() - t0
+    return s
 
 
 def token_sections(ctx, pid):
